@@ -1,11 +1,30 @@
 #!/bin/bash
-# usage: run.sh <ID> quick|thorough | run.sh replay <file> | run.sh selftest ...
+# usage: run.sh <ID> quick|thorough | run.sh replay <file> | run.sh selfcheck | run.sh list
+# Rebuilds the harness against /repo's current working tree on every invocation (Go build cache makes
+# the unchanged case ~1 s). C16 additionally instruments the current sources (see instr/) and builds
+# the harness with that overlay, plus a -race build for the free-running pass.
 set -u
 export GOFLAGS=-mod=mod GOPROXY=off GOSUMDB=off GOTOOLCHAIN=local
 export VERIF_ROOT="$(cd "$(dirname "$0")" && pwd)"
 cd "$VERIF_ROOT"
-BIN="$(mktemp -d "${TMPDIR:-/tmp}/vcheck-bin.XXXXXX")"
-trap 'rm -rf "$BIN"' EXIT
+WORK="$(mktemp -d "${TMPDIR:-/tmp}/vcheck-bin.XXXXXX")"
+trap 'rm -rf "$WORK"' EXIT
 cp /repo/go.sum "$VERIF_ROOT/h/go.sum" 2>/dev/null
-( cd "$VERIF_ROOT/h" && go build -o "$BIN/vcheck" ./cmd/vcheck ) || { echo "engine error: harness does not build against /repo" >&2; exit 2; }
-"$BIN/vcheck" "$@"
+
+needs_sched=0
+case "${1:-}" in
+  C16) needs_sched=1 ;;
+  replay) grep -q '"property": "C16"' "${2:-/dev/null}" 2>/dev/null && needs_sched=1 ;;
+esac
+
+if [ "$needs_sched" = 1 ]; then
+  ( cd "$VERIF_ROOT/instr" && go build -o "$WORK/instr" . ) || { echo "engine error: instrumenter does not build" >&2; exit 2; }
+  "$WORK/instr" -repo /repo -out "$WORK/instr-out" -vsched "$VERIF_ROOT/instr/vsched" >&2 || { echo "engine error: instrumentation of /repo failed" >&2; exit 2; }
+  cp "$WORK/instr-out/stats.json" "$VERIF_ROOT/evidence/C16-instrumentation.json" 2>/dev/null
+  ( cd "$VERIF_ROOT/h" && go build -tags verifsched -overlay "$WORK/instr-out/overlay.json" -o "$WORK/vcheck" ./cmd/vcheck ) || { echo "engine error: instrumented harness does not build against /repo" >&2; exit 2; }
+  ( cd "$VERIF_ROOT/h" && go build -race -tags verifsched -overlay "$WORK/instr-out/overlay.json" -o "$WORK/vcheck-race" ./cmd/vcheck ) || { echo "engine error: race build failed" >&2; exit 2; }
+  export VERIF_RACE_BIN="$WORK/vcheck-race"
+else
+  ( cd "$VERIF_ROOT/h" && go build -o "$WORK/vcheck" ./cmd/vcheck ) || { echo "engine error: harness does not build against /repo" >&2; exit 2; }
+fi
+"$WORK/vcheck" "$@"
